@@ -154,8 +154,16 @@ class Row(Vector):
 		# Custom repr to look like a Row, not a Vector
 		idx = self._index
 		from .display import _int_text
-		# (an int beyond the interpreter's int-to-str digit limit has no repr(): shown as the table shows it)
-		values = [_int_text(col[idx]) if type(col[idx]) is int else repr(col[idx]) for col in self._raw_cols]
+		# (an int beyond the interpreter's int-to-str digit limit has no repr(): shown as the table shows it,
+		# and so is any other cell whose repr cannot be produced)
+		def cell(x):
+			if type(x) is int:
+				return _int_text(x)
+			try:
+				return repr(x)
+			except Exception:
+				return f"<{type(x).__name__}>"
+		values = [cell(col[idx]) for col in self._raw_cols]
 		return f"Row({idx}: {', '.join(values)})"
 
 	def __getattr__(self, attr):
